@@ -106,10 +106,10 @@ def step : Motion → Scr → Scr
   | .lf, s => ({ s with cx := 0 } : Scr).lineDown
   | .ff, s | .ind, s => s.lineDown
   | .ri, s => s.lineUp
-  | .cuu ps, s => s.setCursor s.cx (s.cy - p0 ps 1)
-  | .cud ps, s => s.setCursor s.cx (s.cy + p0 ps 1)
-  | .cuf ps, s => s.setCursor (s.cx + p0 ps 1) s.cy
-  | .cub ps, s => s.setCursor (s.cx - p0 ps 1) s.cy
+  | .cuu ps, s => s.setCursor s.cx (s.cy - pMove ps)
+  | .cud ps, s => s.setCursor s.cx (s.cy + pMove ps)
+  | .cuf ps, s => s.setCursor (s.cx + pMove ps) s.cy
+  | .cub ps, s => s.setCursor (s.cx - pMove ps) s.cy
   | .cha ps, s => s.setCursor (p0 ps 1 - 1) s.cy
   | .vpa ps, s => s.setCursor s.cx (p0 ps 1 - 1)
   | .cup ps, s | .hvp ps, s => s.setCursor (pAt ps 1 1 - 1) (pAt ps 0 1 - 1)
@@ -345,15 +345,15 @@ theorem ri_cursor (cw : Nat → Nat) (t : Term) (hc : t.scr.CursorIn) :
 theorem cuu_cursor (cw : Nat → Nat) (t : Term) (ps : List Int) (hc : t.scr.CursorIn) :
     (after cw t (.csi 0 ps true 0x41)).cx = t.scr.cx ∧
     ((after cw t (.csi 0 ps true 0x41)).cy : Int)
-      = min (max ((t.scr.cy : Int) - p0 ps 1) 0) ((t.scr.h : Int) - 1) ∧
+      = min (max ((t.scr.cy : Int) - pMove ps) 0) ((t.scr.h : Int) - 1) ∧
     (after cw t (.csi 0 ps true 0x41)).CursorIn := by
   rw [show after cw t (.csi 0 ps true 0x41) = _ from after_tok cw t (.cuu ps)]
   simp only [step, Scr.setCursor, clampNat, Scr.CursorIn] at *
   finish
 
 theorem cuu_cursor_nonneg (cw : Nat → Nat) (t : Term) (ps : List Int) (hc : t.scr.CursorIn)
-    (hn : 0 ≤ p0 ps 1) :
-    ((after cw t (.csi 0 ps true 0x41)).cy : Int) = max ((t.scr.cy : Int) - p0 ps 1) 0 := by
+    (hn : 0 ≤ pMove ps) :
+    ((after cw t (.csi 0 ps true 0x41)).cy : Int) = max ((t.scr.cy : Int) - pMove ps) 0 := by
   have := cuu_cursor cw t ps hc
   simp only [Scr.CursorIn] at *
   omega
@@ -363,16 +363,16 @@ theorem cuu_cursor_nonneg (cw : Nat → Nat) (t : Term) (ps : List Int) (hc : t.
 theorem cud_cursor (cw : Nat → Nat) (t : Term) (ps : List Int) (hc : t.scr.CursorIn) :
     (after cw t (.csi 0 ps true 0x42)).cx = t.scr.cx ∧
     ((after cw t (.csi 0 ps true 0x42)).cy : Int)
-      = min (max ((t.scr.cy : Int) + p0 ps 1) 0) ((t.scr.h : Int) - 1) ∧
+      = min (max ((t.scr.cy : Int) + pMove ps) 0) ((t.scr.h : Int) - 1) ∧
     (after cw t (.csi 0 ps true 0x42)).CursorIn := by
   rw [show after cw t (.csi 0 ps true 0x42) = _ from after_tok cw t (.cud ps)]
   simp only [step, Scr.setCursor, clampNat, Scr.CursorIn] at *
   finish
 
 theorem cud_cursor_nonneg (cw : Nat → Nat) (t : Term) (ps : List Int) (hc : t.scr.CursorIn)
-    (hn : 0 ≤ p0 ps 1) :
+    (hn : 0 ≤ pMove ps) :
     ((after cw t (.csi 0 ps true 0x42)).cy : Int)
-      = min ((t.scr.cy : Int) + p0 ps 1) ((t.scr.h : Int) - 1) := by
+      = min ((t.scr.cy : Int) + pMove ps) ((t.scr.h : Int) - 1) := by
   have := cud_cursor cw t ps hc
   simp only [Scr.CursorIn] at *
   omega
@@ -380,7 +380,7 @@ theorem cud_cursor_nonneg (cw : Nat → Nat) (t : Term) (ps : List Int) (hc : t.
 /-- CUF `CSI n C`: `n` columns right, clamped; never wraps. For `0 ≤ n`: `min (x + n) (w - 1)` -/
 theorem cuf_cursor (cw : Nat → Nat) (t : Term) (ps : List Int) (hc : t.scr.CursorIn) :
     ((after cw t (.csi 0 ps true 0x43)).cx : Int)
-      = min (max ((t.scr.cx : Int) + p0 ps 1) 0) ((t.scr.w : Int) - 1) ∧
+      = min (max ((t.scr.cx : Int) + pMove ps) 0) ((t.scr.w : Int) - 1) ∧
     (after cw t (.csi 0 ps true 0x43)).cy = t.scr.cy ∧
     (after cw t (.csi 0 ps true 0x43)).CursorIn := by
   rw [show after cw t (.csi 0 ps true 0x43) = _ from after_tok cw t (.cuf ps)]
@@ -388,9 +388,9 @@ theorem cuf_cursor (cw : Nat → Nat) (t : Term) (ps : List Int) (hc : t.scr.Cur
   finish
 
 theorem cuf_cursor_nonneg (cw : Nat → Nat) (t : Term) (ps : List Int) (hc : t.scr.CursorIn)
-    (hn : 0 ≤ p0 ps 1) :
+    (hn : 0 ≤ pMove ps) :
     ((after cw t (.csi 0 ps true 0x43)).cx : Int)
-      = min ((t.scr.cx : Int) + p0 ps 1) ((t.scr.w : Int) - 1) := by
+      = min ((t.scr.cx : Int) + pMove ps) ((t.scr.w : Int) - 1) := by
   have := cuf_cursor cw t ps hc
   simp only [Scr.CursorIn] at *
   omega
@@ -398,7 +398,7 @@ theorem cuf_cursor_nonneg (cw : Nat → Nat) (t : Term) (ps : List Int) (hc : t.
 /-- CUB `CSI n D`: `n` columns left, clamped. For `0 ≤ n`: `max (x - n) 0` -/
 theorem cub_cursor (cw : Nat → Nat) (t : Term) (ps : List Int) (hc : t.scr.CursorIn) :
     ((after cw t (.csi 0 ps true 0x44)).cx : Int)
-      = min (max ((t.scr.cx : Int) - p0 ps 1) 0) ((t.scr.w : Int) - 1) ∧
+      = min (max ((t.scr.cx : Int) - pMove ps) 0) ((t.scr.w : Int) - 1) ∧
     (after cw t (.csi 0 ps true 0x44)).cy = t.scr.cy ∧
     (after cw t (.csi 0 ps true 0x44)).CursorIn := by
   rw [show after cw t (.csi 0 ps true 0x44) = _ from after_tok cw t (.cub ps)]
@@ -406,8 +406,8 @@ theorem cub_cursor (cw : Nat → Nat) (t : Term) (ps : List Int) (hc : t.scr.Cur
   finish
 
 theorem cub_cursor_nonneg (cw : Nat → Nat) (t : Term) (ps : List Int) (hc : t.scr.CursorIn)
-    (hn : 0 ≤ p0 ps 1) :
-    ((after cw t (.csi 0 ps true 0x44)).cx : Int) = max ((t.scr.cx : Int) - p0 ps 1) 0 := by
+    (hn : 0 ≤ pMove ps) :
+    ((after cw t (.csi 0 ps true 0x44)).cx : Int) = max ((t.scr.cx : Int) - pMove ps) 0 := by
   have := cub_cursor cw t ps hc
   simp only [Scr.CursorIn] at *
   omega
@@ -730,17 +730,25 @@ theorem cup_home (cw : Nat → Nat) (t : Term) (hc : t.scr.CursorIn) :
   simp at this
   omega
 
-/-- an explicit 0 is not promoted to 1 by the relative motions: CUU / CUD / CUF / CUB with
-    parameter 0 leave the cursor where it is -/
+/-- `pMove` is never 0, is 1 for an omitted first parameter, for a parameter omitted in front
+    of a `;` (stored as 0 by the parser) and for an explicit 0, and the parameter otherwise -/
+theorem pMove_spec (ps : List Int) :
+    pMove [] = 1 ∧ pMove (0 :: ps) = 1 ∧ (∀ n : Int, n ≠ 0 → pMove (n :: ps) = n) ∧ pMove ps ≠ 0 := by
+  refine ⟨by simp [pMove, p0], by simp [pMove, p0], ?_, ?_⟩
+  · intro n hn; simp [pMove, p0, hn]
+  · unfold pMove; split <;> omega
+
+/-- **omitted means 1, also in front of a `;`, and so does an explicit 0** (VT100/xterm: "a
+    parameter value of zero or one moves one position"): CUU / CUD / CUF / CUB with first
+    parameter 0 act exactly like the same function with parameter 1 -/
 theorem relative_zero (cw : Nat → Nat) (t : Term) (ps : List Int) (fin : UInt8)
-    (hf : fin = 0x41 ∨ fin = 0x42 ∨ fin = 0x43 ∨ fin = 0x44) (hc : t.scr.CursorIn) :
-    (after cw t (.csi 0 (0 :: ps) true fin)).cx = t.scr.cx ∧
-    (after cw t (.csi 0 (0 :: ps) true fin)).cy = t.scr.cy := by
+    (hf : fin = 0x41 ∨ fin = 0x42 ∨ fin = 0x43 ∨ fin = 0x44) :
+    Term.apply cw t (.csi 0 (0 :: ps) true fin) = Term.apply cw t (.csi 0 (1 :: ps) true fin) := by
   rcases hf with rfl | rfl | rfl | rfl
-  · have := cuu_cursor cw t (0 :: ps) hc; simp only [p0, Scr.CursorIn] at *; omega
-  · have := cud_cursor cw t (0 :: ps) hc; simp only [p0, Scr.CursorIn] at *; omega
-  · have := cuf_cursor cw t (0 :: ps) hc; simp only [p0, Scr.CursorIn] at *; omega
-  · have := cub_cursor cw t (0 :: ps) hc; simp only [p0, Scr.CursorIn] at *; omega
+  · exact (apply_tok cw t (.cuu (0 :: ps))).trans (by simp [step, pMove, p0]; exact (apply_tok cw t (.cuu (1 :: ps))).symm)
+  · exact (apply_tok cw t (.cud (0 :: ps))).trans (by simp [step, pMove, p0]; exact (apply_tok cw t (.cud (1 :: ps))).symm)
+  · exact (apply_tok cw t (.cuf (0 :: ps))).trans (by simp [step, pMove, p0]; exact (apply_tok cw t (.cuf (1 :: ps))).symm)
+  · exact (apply_tok cw t (.cub (0 :: ps))).trans (by simp [step, pMove, p0]; exact (apply_tok cw t (.cub (1 :: ps))).symm)
 
 /-- for the absolute motions an explicit 0 clamps to the first column / row: CHA 0, VPA 0 -/
 theorem absolute_zero (cw : Nat → Nat) (t : Term) (ps : List Int) (hc : t.scr.CursorIn) :
@@ -781,13 +789,29 @@ theorem beyond_screen (cw : Nat → Nat) (t : Term) (n : Int) (ps : List Int) (h
   have h6 := vpa_cursor cw t (n :: ps) hc
   have h7 := cup_cursor cw t (n :: ps) hc
   have h8 := cup_cursor cw t (1 :: n :: ps) hc
+  have hm : n = 0 ∨ pMove (n :: ps) = n := by
+    by_cases h0 : n = 0
+    · exact Or.inl h0
+    · exact Or.inr (by simp [pMove, p0, h0])
   simp only [p0, Scr.CursorIn] at h1 h2 h3 h4 h5 h6 hc
   simp [pAt] at h7 h8
   refine ⟨?_, ?_, ?_, ?_, ?_, ?_, ?_, ?_⟩
-  · clear h2 h3 h4 h5 h6 h7 h8; omega
-  · clear h1 h3 h4 h5 h6 h7 h8; omega
-  · clear h1 h2 h4 h5 h6 h7 h8; omega
-  · clear h1 h2 h3 h5 h6 h7 h8; omega
+  · clear h2 h3 h4 h5 h6 h7 h8
+    rcases hm with h0 | hm
+    · omega
+    · rw [hm] at h1; omega
+  · clear h1 h3 h4 h5 h6 h7 h8
+    rcases hm with h0 | hm
+    · omega
+    · rw [hm] at h2; omega
+  · clear h1 h2 h4 h5 h6 h7 h8
+    rcases hm with h0 | hm
+    · omega
+    · rw [hm] at h3; omega
+  · clear h1 h2 h3 h5 h6 h7 h8
+    rcases hm with h0 | hm
+    · omega
+    · rw [hm] at h4; omega
   · clear h1 h2 h3 h4 h6 h7 h8; omega
   · clear h1 h2 h3 h4 h5 h7 h8; omega
   · clear h1 h2 h3 h4 h5 h6 h8; omega
@@ -837,8 +861,8 @@ example : (after id demoTop (.esc [] 0x4d)).grid =
 -- RI away from the top margin just moves
 example : (after id demo (.esc [] 0x4d)).grid = demo.scr.grid ∧ (after id demo (.esc [] 0x4d)).cy = 2 := by
   decide
--- absent = 1, explicit 0 = stay, for CUB
-example : (after id demo (.csi 0 [] true 0x44)).cx = 3 ∧ (after id demo (.csi 0 [0] true 0x44)).cx = 4 ∧
+-- absent = 1, explicit 0 = 1 too, for CUB
+example : (after id demo (.csi 0 [] true 0x44)).cx = 3 ∧ (after id demo (.csi 0 [0] true 0x44)).cx = 3 ∧
     (after id demo (.csi 0 [2147483647] true 0x44)).cx = 0 := by decide
 -- IND on the bottom margin scrolls rows 1..3 only; rows 0 and 4 survive
 example : (after id demo (.esc [] 0x44)).grid =
@@ -901,6 +925,7 @@ end TM.C04
 #print axioms TM.C04.cup_absent
 #print axioms TM.C04.cup_home
 #print axioms TM.C04.relative_zero
+#print axioms TM.C04.pMove_spec
 #print axioms TM.C04.absolute_zero
 #print axioms TM.C04.cup_zero
 #print axioms TM.C04.beyond_screen
